@@ -125,7 +125,7 @@ pub fn decode_plan(c: &mut Cur) -> Plan {
         path_noise: if c.pick(4) == 0 { c.u8() } else { 0 },
         version: [11u8, 10, 2, 3, 9][c.pick(5)],
         plus_literal: false,
-        absolute_form: if c.pick(8) == 0 { 1 + c.pick(3) as u8 } else { 0 },
+        absolute_form: if c.pick(8) == 0 { 1 + c.pick(7) as u8 } else { 0 },
         query_tail: if c.pick(4) == 0 { c.u8() & 3 } else { 0 },
     };
     let style = TsStyle {
@@ -455,7 +455,8 @@ pub fn one(data: &[u8]) {
         "C19" => {
             let plan = decode_plan(&mut c);
             let k = c.u16();
-            let case = c19::make_case(plan, k, c.bool(), c.bool(), c.bool(), (c.u16() % 1600) as i16 - 800);
+            let mut case = c19::make_case(plan, k, c.bool(), c.bool(), c.bool(), (c.u16() % 1600) as i16 - 800);
+            case.filler = c.u16() % 300;
             let r = c19::check_dup(&case, &mut cc);
             settle(st, "duplicates", &case, r);
         }
